@@ -28,6 +28,7 @@ Proof.
   - (* Clear *) split; [apply Inv_empty|]. split; reflexivity.
   - (* Sort *) destruct (sort_inv s reverse H) as [A B]. auto.
   - (* Reverse *) destruct (reverse_inv s H) as [A B]. auto.
+  - (* SortKey *) destruct (sort_key_inv s m reverse H) as [A B]. auto.
   - (* Update *) destruct (update_inv s os H) as [A B]. auto.
   - (* IntersectionUpdate *) destruct (intersection_update_inv c s os H) as [A B]. auto.
   - (* DifferenceUpdate *) destruct (difference_update_inv c s os H) as [A B]. auto.
